@@ -207,6 +207,76 @@ fn storage_script(args: &[String]) {
     println!("lookups {}", vals.join(" "));
 }
 
+/// table-dump <core|glsl|opencl>: every row of the real table as  <num> <name> kinds=K:Q,.. caps=.. exts=..
+fn table_dump(which: &str) {
+    use rspirv::grammar::*;
+    fn ops(o: &[LogicalOperand]) -> String {
+        o.iter().map(|l| format!("{:?}:{:?}", l.kind, l.quantifier)).collect::<Vec<_>>().join(",")
+    }
+    match which {
+        "core" => {
+            for r in CoreInstructionTable::iter() {
+                let caps: Vec<String> = r.capabilities.iter().map(|c| format!("{:?}", c)).collect();
+                println!("{} {} kinds={} caps={} exts={}", r.opcode as u32, r.opname, ops(r.operands), caps.join(","), r.extensions.join(","));
+            }
+        }
+        "glsl" => {
+            for r in GlslStd450InstructionTable::iter() {
+                let caps: Vec<String> = r.capabilities.iter().map(|c| format!("{:?}", c)).collect();
+                println!("{} {} kinds={} caps={} exts={}", r.opcode, r.opname, ops(r.operands), caps.join(","), r.extensions.join(","));
+            }
+        }
+        _ => {
+            for r in OpenCLStd100InstructionTable::iter() {
+                let caps: Vec<String> = r.capabilities.iter().map(|c| format!("{:?}", c)).collect();
+                println!("{} {} kinds={} caps={} exts={}", r.opcode, r.opname, ops(r.operands), caps.join(","), r.extensions.join(","));
+            }
+        }
+    }
+}
+
+/// lookup-scan <core|glsl|opencl>: lookup_opcode(n) for n in 0..=70000 (core: all u16) and get() for every enum value
+fn lookup_scan(which: &str) {
+    use rspirv::grammar::*;
+    match which {
+        "core" => {
+            for n in 0u32..=0xFFFF {
+                if let Some(r) = CoreInstructionTable::lookup_opcode(n as u16) {
+                    println!("lookup {} {} {}", n, r.opcode as u32, r.opname);
+                }
+            }
+            for n in 0u32..=0xFFFF {
+                if let Some(op) = spirv::Op::from_u32(n) {
+                    let r = std::panic::catch_unwind(|| CoreInstructionTable::get(op).opcode as u32);
+                    println!("get {} {}", n, r.map(|v| v.to_string()).unwrap_or("PANIC".into()));
+                }
+            }
+        }
+        "glsl" => {
+            for n in 0u32..=70000 {
+                if let Some(r) = GlslStd450InstructionTable::lookup_opcode(n) {
+                    println!("lookup {} {} {}", n, r.opcode, r.opname);
+                }
+                if let Some(op) = spirv::GLOp::from_u32(n) {
+                    let r = std::panic::catch_unwind(|| GlslStd450InstructionTable::get(op).opcode);
+                    println!("get {} {}", n, r.map(|v| v.to_string()).unwrap_or("PANIC".into()));
+                }
+            }
+        }
+        _ => {
+            for n in 0u32..=70000 {
+                if let Some(r) = OpenCLStd100InstructionTable::lookup_opcode(n) {
+                    println!("lookup {} {} {}", n, r.opcode, r.opname);
+                }
+                if let Some(op) = spirv::CLOp::from_u32(n) {
+                    let r = std::panic::catch_unwind(|| OpenCLStd100InstructionTable::get(op).opcode);
+                    println!("get {} {}", n, r.map(|v| v.to_string()).unwrap_or("PANIC".into()));
+                }
+            }
+        }
+    }
+}
+
 fn main() {
     let args: Vec<String> = env::args().collect();
     match args.get(1).map(|s| s.as_str()) {
@@ -216,6 +286,8 @@ fn main() {
         Some("load-bytes") => load_bytes_cmd(&args[2..]),
         Some("decoder-script") => decoder_script(&args[2..]),
         Some("storage-script") => storage_script(&args[2..]),
+        Some("table-dump") => table_dump(&args[2]),
+        Some("lookup-scan") => lookup_scan(&args[2]),
         _ => {
             eprintln!("usage: vreplay <subcommand> ...");
             std::process::exit(64);
